@@ -187,9 +187,6 @@ Qed.
 (* multi-key trees (the ordering fixed in 103bce4): items with equivalent keys are never reordered across the two
    trees -- destination items stay before equivalent source items: the concatenation is destination-then-source whenever
    the last destination key is <= the first source key, and source-then-destination only under STRICT inequality *)
-Fixpoint ksle (l : list item) : Prop :=
-  match l with [] => True | a :: r => (forall b, In b r -> key a <= key b) /\ ksle r end.
-
 Lemma ksle_last_max l : ksle l -> forall a, In a l -> key a <= key (last l 0).
 Proof.
   induction l as [|x l IH]; intros S a I; [destruct I|]. simpl in S. destruct S as [Hx S].
